@@ -42,13 +42,14 @@ func Main() {
 		shardBin := fs.String("shardbin", os.Args[0], "")
 		race := fs.Bool("race", false, "")
 		replay := fs.String("replay", "", "")
+		out := fs.String("out", "", "")
 		fs.Parse(os.Args[2:]) //nolint:errcheck
 		spec := Lookup(*prop)
 		if spec == nil {
 			fmt.Printf("INCONCLUSIVE property=%s no such check\n", *prop)
 			os.Exit(2)
 		}
-		os.Exit(Drive(spec, DriveOpts{Tier: *tier, Seed: *seed, ShardBin: *shardBin, Root: *root, ReplayDir: *replay, RaceBinary: *race}))
+		os.Exit(Drive(spec, DriveOpts{Tier: *tier, Seed: *seed, ShardBin: *shardBin, Root: *root, ReplayDir: *replay, RaceBinary: *race, OutRoot: *out}))
 	case "shard":
 		fs := flag.NewFlagSet("shard", flag.ExitOnError)
 		prop := fs.String("prop", "", "")
